@@ -4,6 +4,7 @@ import copy
 from typing import TYPE_CHECKING
 
 from fortls.constants import BLOCK_TYPE_ID, CLASS_TYPE_ID, KEYWORD_ID_DICT
+from fortls.helper_functions import get_keywords
 from fortls.json_templates import range_json
 from fortls.jsonrpc import path_to_uri
 
@@ -22,8 +23,10 @@ class Type(Scope):
         line_number: int,
         name: str,
         keywords: list,
+        keyword_info: dict = None,
     ):
         super().__init__(file_ast, line_number, name, keywords)
+        self.keyword_info: dict = keyword_info
         self.in_children: list = []
         self.inherit = None
         self.inherit_var = None
@@ -184,8 +187,7 @@ class Type(Scope):
 
     def get_hover(self, long=False, drop_arg=-1) -> tuple[str, str]:
         keywords = [self.get_desc()]
-        if self.abstract:
-            keywords.append("ABSTRACT")
+        keywords += get_keywords(self.keywords, self.keyword_info)
         if self.inherit:
             keywords.append(f"EXTENDS({self.inherit})")
         decl = ", ".join(keywords)
